@@ -76,39 +76,36 @@ Proof. intros HI. unfold do_truncate; cbn [fst]. apply TInv_clear_rebuild. exact
 (* ------------------------------------------------------------------------------------ *)
 (** * ROLLBACK *)
 
-Lemma rows_same_eq a b : rows_same a b = true -> a = b.
+Lemma recreate_uidx_props rows : forall defs us ok,
+  recreate_uidx defs rows = (us, ok) ->
+  Forall (fun u => ui_unique u = true -> uniq_on (uq_kf (ui_cols u)) rows) us
+  /\ Forall (fun u => ui_mirror (ui_cols u) rows (ui_data u)) us.
 Proof.
-  revert b; induction a as [|x a IH]; intros [|y b] H; cbn in H; try discriminate; [reflexivity|].
-  apply andb_true_iff in H. destruct H as [H1 H2]. apply key_eqb_eq in H1. f_equal; auto.
+  induction defs as [|u defs IH]; intros us ok H; cbn in H.
+  - inversion H; subst. split; constructor.
+  - destruct (ui_unique u && has_dup (somes (uq_kf (ui_cols u)) rows)) eqn:Ed.
+    + inversion H; subst. split; constructor.
+    + destruct (recreate_uidx defs rows) as [l ok'] eqn:Er. inversion H; subst.
+      destruct (IH _ _ eq_refl) as [I1 I2]. split; constructor; auto.
+      * cbn. intros Hq. rewrite Hq in Ed. cbn in Ed. apply uniq_on_NoDup. apply has_dup_NoDup. exact Ed.
+      * cbn. apply ui_equiv_refl.
 Qed.
 
-Lemma TInv_restore c s :
-  TInv c -> TInv s -> (uidx_nil c = true \/ rows_same (t_rows c) (t_rows s) = true) ->
-  TInv (set_uidx s (t_uidx c)).
+Lemma restore_tabs_TInv snap : forall ts ok,
+  Forall TInv snap -> restore_tabs snap = (ts, ok) -> Forall TInv ts /\ length ts = length snap.
 Proof.
-  intros [Cwf [[Cnn [Cpk [Cuq [Cck Cui]]]] [Ch Cu]]] [Swf [[Snn [Spk [Suq [Sck Sui]]]] [Sh Su]]] Hor.
-  apply TInv_intro.
-  - exact Swf.
-  - unfold constraints_hold; simp_tab. repeat split; try assumption.
-    destruct Hor as [E|E].
-    + apply uidx_nil_eq in E. rewrite E. constructor.
-    + apply rows_same_eq in E. rewrite <- E. exact Cui.
-  - exact Sh.
-  - unfold user_mirror in *; simp_tab. destruct Hor as [E|E].
-    + apply uidx_nil_eq in E. rewrite E. constructor.
-    + apply rows_same_eq in E. rewrite <- E. exact Cu.
-Qed.
-
-Lemma restore_tabs_TInv cur : forall snap,
-  Forall TInv cur -> Forall TInv snap -> length snap = length cur -> kc_rollback cur snap = false ->
-  Forall TInv (restore_tabs cur snap) /\ length (restore_tabs cur snap) = length cur.
-Proof.
-  induction cur as [|c cur IH]; intros [|s snap] Hc Hs Hl Hk; cbn in *; try discriminate; [split; auto|].
-  inversion Hc; subst. inversion Hs; subst. apply orb_false_iff in Hk. destruct Hk as [Hk1 Hk2].
-  destruct (IH snap) as [I1 I2]; auto.
-  split; [|cbn; congruence]. constructor; [|exact I1].
-  apply TInv_restore; auto.
-  destruct (uidx_nil c); [left; reflexivity|]. cbn in Hk1. right. apply negb_false_iff in Hk1. exact Hk1.
+  induction snap as [|s snap IH]; intros ts ok Hs H; cbn in H.
+  - inversion H; subst. auto.
+  - inversion Hs; subst. destruct (recreate_uidx (t_uidx s) (t_rows s)) as [us oku] eqn:Er.
+    destruct (recreate_uidx_props _ _ _ _ Er) as [P1 P2].
+    assert (HT : TInv (set_uidx s us)) by (apply TInv_set_uidx; assumption).
+    destruct oku.
+    + destruct (restore_tabs snap) as [ts' ok2] eqn:Et. inversion H; subst.
+      destruct (IH _ _ H3 eq_refl) as [I1 I2]. split; [constructor; assumption | cbn; congruence].
+    + inversion H; subst. split.
+      * constructor; [exact HT|]. apply Forall_forall. intros t' Hin. apply in_map_iff in Hin.
+        destruct Hin as [t0 [<- Hin]]. apply TInv_forget_uidx. rewrite Forall_forall in H3. apply H3; exact Hin.
+      * cbn. rewrite map_length. reflexivity.
 Qed.
 
 (* ------------------------------------------------------------------------------------ *)
@@ -183,10 +180,11 @@ Proof.
   - (* CREATE INDEX *)
     unfold with_tab in Hk. destruct (nth_error (d_tabs d) t) as [tb|] eqn:Et; [|exact HI].
     destruct (negb (cols_valid (t_sch tb) cols)); [exact HI|].
-    destruct (index_exists name (d_tabs d)); [exact HI|]. cbn.
+    destruct (index_exists name (d_tabs d)); [exact HI|].
+    destruct (uniq && has_dup (somes (uq_kf cols) (t_rows tb))) eqn:Edup; [exact HI|]. cbn.
     apply (Inv_tabs d); [exact HI | | apply upd_nth_length | apply snap_same_refl].
     apply Forall_upd_nth; [apply HI|]. intros x Hx HT. rewrite Et in Hx; inversion Hx; subst x.
-    apply TInv_create_index; [exact HT|]. intros ->. cbn in Hk. exact Hk.
+    apply TInv_create_index; [exact HT|]. intros ->. cbn in Edup. exact Edup.
   - (* DROP INDEX *)
     destruct (index_exists name (d_tabs d)); [|exact HI]. cbn.
     apply (Inv_tabs d); [exact HI | | apply map_length | apply snap_same_refl].
@@ -213,9 +211,10 @@ Proof.
   - (* COMMIT *)
     destruct (d_txn d) eqn:Ex; [|exact HI]. cbn. destruct HI as [Ht _]. split; cbn; auto.
   - (* ROLLBACK *)
-    destruct (d_txn d) as [x|] eqn:Ex; [|exact HI]. cbn.
+    destruct (d_txn d) as [x|] eqn:Ex; [|exact HI].
     destruct HI as [Ht Hx]. rewrite Ex in Hx. destruct Hx as [Hs Hl].
-    destruct (restore_tabs_TInv (d_tabs d) (x_snap x) Ht Hs Hl Hk) as [R1 R2].
+    destruct (restore_tabs (x_snap x)) as [ts ok] eqn:Er.
+    destruct (restore_tabs_TInv _ _ _ Hs Er) as [R1 R2].
     split; cbn; auto.
   - (* SAVEPOINT *)
     destruct (d_txn d) as [x|] eqn:Ex; [|exact HI]. cbn.
